@@ -245,8 +245,12 @@ impl Summary {
 /// never halt a later one).  Returns (result, halted_by_watchdog).  Loops inside a single command
 /// do not poll the flag; callers that may meet those use a subprocess (see c07).
 pub fn run_timed(text: &str, ctx: Context, ms: u64) -> (Result<Result<Context, ScriptError>, String>, bool) {
-    use std::sync::atomic::{AtomicBool, Ordering};
+    use std::sync::atomic::{AtomicBool, AtomicUsize, Ordering};
     use std::sync::Arc;
+    // the limits are generous (a loaded machine must not look like a hang); once several runs of this process have
+    // really been stopped by the watchdog the code under test does loop, and the remaining runs get a short limit
+    static FIRED: AtomicUsize = AtomicUsize::new(0);
+    let ms = if FIRED.load(Ordering::SeqCst) > 8 { ms.min(2000) } else { ms };
     let halt = Arc::new(AtomicBool::new(false));
     let fired = Arc::new(AtomicBool::new(false));
     let (tx, rx) = std::sync::mpsc::channel::<()>();
@@ -261,5 +265,6 @@ pub fn run_timed(text: &str, ctx: Context, ms: u64) -> (Result<Result<Context, S
     let r = run_guarded(text, ctx, Some(env));
     drop(tx);
     let _ = t.join();
+    if fired.load(Ordering::SeqCst) { FIRED.fetch_add(1, Ordering::SeqCst); }
     (r, fired.load(Ordering::SeqCst))
 }
